@@ -198,6 +198,11 @@ def gen_case(rng, maxops=10):
     if rng.random() < 0.8:
         cols = gen_columns(rng)
         case["write"] = {"labels": gen_labels(rng, nh, cols), "columns": cols}
+        if len(case["write"]["labels"]) == 1 and len(ops) >= 2 and rng.random() < 0.6:
+            # the same label list object is also used for a write in the middle of the history (right after an
+            # add_histogram when there is one): writing must not depend on, or leave traces in, the caller's list
+            adds = [i for i, o in enumerate(ops[:-1]) if o["op"] == "add_hist"]
+            case["write"]["early_at"] = rng.choice(adds) if adds and rng.random() < 0.7 else rng.randrange(len(ops) - 1)
     return case
 
 
@@ -258,7 +263,14 @@ def oracle(case, workdir=None):
         m = _shape_msg(h, nh, nb)
         if m:
             return "after construction: " + m
+        wr0 = case.get("write")
+        shared_labels = json.loads(json.dumps(wr0["labels"])) if wr0 is not None else None
         for step, o in enumerate(case["ops"]):
+            if step > 0 and H.early_write_applies(wr0) and wr0["early_at"] == step - 1:
+                exc = H.early_write(h, wr0, shared_labels, workdir or os.path.join(C.VERIF, ".work"), "oearly")
+                if exc:
+                    return (f"write_to_file with a one-dict label list after operation {step - 1} on a well-formed histogram with "
+                            f"{nh} histogram(s) raises {exc}")
             k = o["op"]
             valid = True
             # ---- is the call valid by the documented contract (decided without the implementation's shapes)?
@@ -366,9 +378,9 @@ def oracle(case, workdir=None):
         try:
             try:
                 if cols is None:
-                    h.write_to_file(path, labels)
+                    h.write_to_file(path, shared_labels)
                 else:
-                    h.write_to_file(path, labels, columns=list(cols))
+                    h.write_to_file(path, shared_labels, columns=list(cols))
             except Exception as e:
                 if unknown:
                     return None
@@ -496,6 +508,7 @@ def correspondence(ctx, model_ok=True):
                    "enumerated completely) on a fixed two-histogram state",
            "samples": cases[:3], "model_runner": "Eval vm_compute in generated cases files (sharded coqc), comparison by Model/HistCheck.v",
            "failures": [], "broken": []}
+    out["all_cases"] = cases          # the driver runs the property oracle on these as well
     codes, broken = H.run_cases(ctx, ID, cases, gots)
     if codes is None:
         out["broken"] += broken
